@@ -24,6 +24,7 @@ type vgTemplate struct {
 	ins   [][2]any // {producer name, 1-based output index}
 	outs  []uint64
 	ref   string
+	alt   bool // deposit whose asset record differs from the standard one in letter case only
 }
 
 var vgTemplates = []vgTemplate{
@@ -32,12 +33,14 @@ var vgTemplates = []vgTemplate{
 	{name: "D3", kind: "deposit", asset: "BTC", amt: 400, outs: []uint64{400}},
 	{name: "D4", kind: "deposit", asset: "DOGE", amt: 7, outs: []uint64{7}},
 	{name: "D5", kind: "deposit", asset: "BTC", amt: 499, outs: []uint64{499}},
+	{name: "D6", kind: "deposit", asset: "BTC", amt: 3, outs: []uint64{3}, alt: true},
 	{name: "T1", kind: "transfer", asset: "BTC", ins: [][2]any{{"D1", 1}}, outs: []uint64{1500, 500}},
 	{name: "T2", kind: "transfer", asset: "BTC", ins: [][2]any{{"T1", 1}, {"D3", 1}}, outs: []uint64{1900}},
 	{name: "T3", kind: "transfer", asset: "BTC", ins: [][2]any{{"T1", 1}}, outs: []uint64{1500}},
 	{name: "W1", kind: "submit", asset: "BTC", ins: [][2]any{{"T1", 2}}, outs: []uint64{300, 200}},
 	{name: "X1", kind: "deposit", asset: "XIN", amt: 10, outs: []uint64{10}},
 	{name: "K1", kind: "claim", asset: "XIN", ins: [][2]any{{"X1", 1}}, outs: []uint64{1, 9}, ref: "W1"},
+	{name: "K2", kind: "claim", asset: "XIN", ins: [][2]any{{"K1", 2}}, outs: []uint64{1, 8}, ref: "W1"},
 }
 
 type vgAsset struct {
@@ -77,7 +80,11 @@ func vgBuild(w *vnWorld, tag string) *vgLedger {
 			tx := common.NewTransactionV5(as.id)
 			switch tp.kind {
 			case "deposit":
-				tx.AddDepositInput(&common.DepositData{Chain: as.chain, AssetKey: as.key,
+				key := as.key
+				if tp.alt {
+					key = strings.ToUpper(key)
+				}
+				tx.AddDepositInput(&common.DepositData{Chain: as.chain, AssetKey: key,
 					Transaction: fmt.Sprintf("ext-%s-%s-%d", tag, tp.name, nonce), Index: 0, Amount: common.NewInteger(tp.amt)})
 			default:
 				for _, in := range tp.ins {
@@ -107,6 +114,7 @@ func vgBuild(w *vnWorld, tag string) *vgLedger {
 			}
 			h := tx.AsVersioned().PayloadHash()
 			if int(h[0])/16 != k {
+				// 13 templates: bands of 16 of the first hash byte
 				continue
 			}
 			ver := tx.AsVersioned()
@@ -220,13 +228,23 @@ func (g *vgLedger) observe() vM {
 			}
 		}
 	}
-	total := vM{}
+	total, ainfo := vM{}, vM{}
 	for n, as := range vgAssets() {
-		_, bal, err := w.store.ReadAssetWithBalance(as.id)
+		rec, bal, err := w.store.ReadAssetWithBalance(as.id)
 		if err != nil {
 			w.t.Fatalf("observe: %v", err)
 		}
 		total[n] = vgUnits(bal)
+		switch {
+		case rec == nil:
+			ainfo[n] = "none"
+		case rec.AssetKey == as.key && rec.Chain == as.chain:
+			ainfo[n] = "std"
+		case strings.EqualFold(rec.AssetKey, as.key):
+			ainfo[n] = "alt"
+		default:
+			ainfo[n] = "other"
+		}
 	}
 	// topology: every stored snapshot in cursor order
 	topo := [][]string{}
@@ -245,7 +263,7 @@ func (g *vgLedger) observe() vM {
 			topo = append(topo, strings.Split(k, "+"))
 		}
 	}
-	return vM{"body": body, "final": final, "lock": lock, "dlock": dlock, "total": total,
+	return vM{"body": body, "final": final, "lock": lock, "dlock": dlock, "total": total, "ainfo": ainfo,
 		"topo": topo, "pos": pos, "hashok": hashok, "genesis": int(g.gcount) + 1}
 }
 
